@@ -179,12 +179,15 @@ def compare(style, model, step):
             raise Violation('model:getProperties-effective', f'after {step}: {eff} vs {expit}')
         for b in BASE:
             e = model.eff(b)
-            for sp in (b, b.upper()):
+            for sp in api_spellings(b):
                 v, pr, inn = style.getPropertyValue(sp), style.getPropertyPriority(sp), sp in style
                 if (v, pr, inn) != ((e[1], e[2], True) if e else ('', '', False)):
-                    raise Violation('model:effective', f'after {step}: {sp}: {(v, pr, inn)} vs {e}')
-            if style[b] != (e[1] if e else ''):
-                raise Violation('model:getitem', f'after {step}: {b}')
+                    raise Violation('model:effective', f'after {step}: {sp}: (value, priority, membership) {(v, pr, inn)} vs {e}')
+                if style[sp] != (e[1] if e else ''):
+                    raise Violation('model:getitem', f'after {step}: {sp}')
+                po = style.getProperty(sp)
+                if (po is not None) != bool(e) or (e and (po.value, po.priority) != (e[1], e[2])):
+                    raise Violation('model:getProperty', f'after {step}: {sp}: {po} vs {e}')
             if b in DOM and getattr(style, DOM[b]) != (e[1] if e else ''):
                 raise Violation('model:domattr-get', f'after {step}: {DOM[b]} -> {getattr(style, DOM[b])!r} vs {e}')
         text = style.cssText
